@@ -425,7 +425,31 @@ def load_attr(engine, st, o, attr, node):
                     else:
                         yield st1, Raised("AttributeError", where=f"<non-str>.{attr}")
                 return
-            raise OutsideSubset(f"attribute {attr} on a value of unknown type (line {getattr(node, 'lineno', '?')})")
+            # dynamic dispatch over the repository's classes that have this attribute (exact run-time class)
+            cands = []
+            seen = set()
+            for c in engine.repo.classes.values():
+                if id(c) in seen:
+                    continue
+                seen.add(id(c))
+                if attr in engine.repo.all_fields(c) or engine.repo.find_method(c, attr) is not None or engine.repo.find_class_attr(c, attr) is not None or engine.field_type(c.name, attr) is not None:
+                    cands.append(c)
+            cands.sort(key=lambda c: c.name)
+            if not cands:
+                raise OutsideSubset(f"attribute {attr} on a value of unknown type (line {getattr(node, 'lineno', '?')})")
+            rest = st
+            for c in cands:
+                nxt = None
+                for st1, hit in engine.fork(rest, And(V.is_obj(o.t), S.cls_of(V.oid(o.t)) == class_id(c.name))):
+                    if hit:
+                        yield from load_obj_attr(engine, st1, sv_v(o.t, TObj(c.name)), c.name, attr, node)
+                    else:
+                        nxt = st1
+                if nxt is None:
+                    return
+                rest = nxt
+            yield rest, Raised("AttributeError", where=f"<dynamic>.{attr}")
+            return
         raise OutsideSubset(f"attribute {attr} on {ty}")
     if k == "tuple":
         # NamedTuple instances
@@ -436,6 +460,17 @@ def load_attr(engine, st, o, attr, node):
                     yield st, o.t[i]
                     return
         raise OutsideSubset(f"attribute {attr} on tuple")
+    if k == "super":
+        selfv, cls = o.t
+        dyn = engine.repo.classes.get(strip_opt(selfv.ty).cls, cls)
+        fi = engine.repo.find_method(dyn, attr, after=cls) if cls in engine.repo.mro(dyn) else engine.repo.find_method(cls, attr, after=cls)
+        if fi is None:
+            raise OutsideSubset(f"super().{attr}")
+        if fi.is_property:
+            yield from engine.call_repo(fi, [selfv], {}, st, node)
+        else:
+            yield st, SV("func", ("repo", fi, None if fi.is_static else selfv))
+        return
     if k == "exc":
         if attr == "value" or attr == "args":
             yield st, sv_v(S.fresh("excattr", V), TAny)
@@ -462,7 +497,7 @@ def load_attr(engine, st, o, attr, node):
     raise OutsideSubset(f"attribute {attr} on {k}")
 
 
-STR_ATTRS = {"lower", "upper", "strip", "startswith", "endswith", "split", "rsplit", "replace", "isnumeric", "join", "encode"}
+STR_ATTRS = {"removeprefix", "removesuffix", "find", "rfind", "lstrip", "rstrip", "format", "title", "lower", "upper", "strip", "startswith", "endswith", "split", "rsplit", "replace", "isnumeric", "join", "encode"}
 
 
 def _union_attr(engine, st, o, items, attr, node):
@@ -989,6 +1024,13 @@ def b_dict(engine, st, args, kwargs, node):
     if not args and not kwargs:
         yield st, sv_dict(S.EMPTY_SET, S.NONE_MAP)
         return
+    if len(args) == 1 and not kwargs:
+        x = args[0]
+        if x.kind == "v" and isinstance(strip_opt(x.ty), TDict) and not isinstance(x.ty, TOpt):
+            st, x = engine.unboxed(st, x.t, strip_opt(x.ty))
+        if x.kind == "dict":
+            yield st, SV("dict", x.t, x.ty)  # a copy (value semantics: the same value, no alias)
+            return
     raise OutsideSubset("dict(...) with arguments")
 
 
@@ -1270,6 +1312,148 @@ def m_dict_update(engine, st, recv, args, kwargs, recv_node):
     yield from _mut(engine, st, recv, recv_node, new)
 
 
+def m_dict_setdefault(engine, st, recv, args, kwargs, recv_node):
+    dom, mp = recv.t
+    vt = recv.ty.v if isinstance(recv.ty, TDict) else TAny
+    st, bk = engine.boxed(st, args[0])
+    dflt = args[1] if len(args) > 1 else SV_NONE
+    for st1, has in engine.fork(st, dom[bk]):
+        if has:
+            st2, u = engine.unboxed(st1, mp[bk], vt)
+            if u.kind in ("list", "set", "dict"):
+                raise OutsideSubset("setdefault returning an existing container that may then be mutated in place (aliasing)")
+            yield st2, u
+        else:
+            st2, bv = engine.boxed(st1, dflt)
+            new = SV("dict", (z3.Store(dom, bk, z3.BoolVal(True)), z3.Store(mp, bk, bv)), recv.ty)
+            yield from _mut(engine, st2, recv, recv_node, new, dflt)
+
+
+def m_dict_copy(engine, st, recv, args, kwargs, recv_node):
+    yield st, SV("dict", recv.t, recv.ty)
+
+
+def m_set_copy(engine, st, recv, args, kwargs, recv_node):
+    yield st, SV("set", recv.t, recv.ty)
+
+
+def _set_pred(fn):
+    def m(engine, st, recv, args, kwargs, recv_node):
+        for st1, s in to_set(engine, st, args[0]):
+            if isinstance(s, Raised):
+                yield st1, s
+            else:
+                x = S.fresh("x", V)
+                yield st1, sv_bool(z3.ForAll([x], fn(recv.t[x], s.t[x])))
+
+    return m
+
+
+def m_list_insert(engine, st, recv, args, kwargs, recv_node):
+    ln, arr = recv.t
+    i0 = engine.as_int(args[0])
+    i0 = z3.If(i0 < 0, z3.If(i0 + ln < 0, 0, i0 + ln), z3.If(i0 > ln, ln, i0))
+    st, b = engine.boxed(st, args[1])
+    i = S.fresh("i", S.Int)
+    new = SV("list", (ln + 1, z3.Lambda([i], z3.If(i < i0, arr[i], z3.If(i == i0, b, arr[i - 1])))), recv.ty)
+    yield from _mut(engine, st, recv, recv_node, new)
+
+
+def m_list_remove(engine, st, recv, args, kwargs, recv_node):
+    ln, arr = recv.t
+    st, b = engine.boxed(st, args[0])
+    j = S.fresh("j", S.Int)
+    i = S.fresh("i", S.Int)
+    first = z3.Function(S.fresh_name("first_idx"), S.Int)
+    for st1, has in engine.fork(st, z3.Exists([j], And(0 <= j, j < ln, arr[j] == b))):
+        if has:
+            k = S.fresh("k", S.Int)
+            st2 = st1.with_facts([0 <= k, k < ln, arr[k] == b, z3.ForAll([j], z3.Implies(And(0 <= j, j < k), arr[j] != b))])
+            new = SV("list", (ln - 1, z3.Lambda([i], z3.If(i < k, arr[i], arr[i + 1]))), recv.ty)
+            yield from _mut(engine, st2, recv, recv_node, new)
+        else:
+            yield st1, Raised("ValueError", where="list.remove")
+
+
+def m_list_index(engine, st, recv, args, kwargs, recv_node):
+    ln, arr = recv.t
+    st, b = engine.boxed(st, args[0])
+    j = S.fresh("j", S.Int)
+    for st1, has in engine.fork(st, z3.Exists([j], And(0 <= j, j < ln, arr[j] == b))):
+        if has:
+            k = S.fresh("k", S.Int)
+            yield st1.with_facts([0 <= k, k < ln, arr[k] == b, z3.ForAll([j], z3.Implies(And(0 <= j, j < k), arr[j] != b))]), sv_int(k)
+        else:
+            yield st1, Raised("ValueError", where="list.index")
+
+
+def m_list_sort(engine, st, recv, args, kwargs, recv_node):
+    for st1, l in b_sorted(engine, st, [recv], kwargs, None):
+        if isinstance(l, Raised):
+            yield st1, l
+        else:
+            yield from _mut(engine, st1, recv, recv_node, SV("list", l.t, recv.ty))
+
+
+def m_list_reverse(engine, st, recv, args, kwargs, recv_node):
+    ln, arr = recv.t
+    i = S.fresh("i", S.Int)
+    yield from _mut(engine, st, recv, recv_node, SV("list", (ln, z3.Lambda([i], arr[ln - 1 - i])), recv.ty))
+
+
+def m_list_clear(engine, st, recv, args, kwargs, recv_node):
+    yield from _mut(engine, st, recv, recv_node, SV("list", (z3.IntVal(0), S.NONE_SEQ), recv.ty))
+
+
+def _str_uf(name, nargs=0, ret=None):
+    def m(engine, st, recv, args, kwargs, recv_node):
+        a = [engine.as_str(x) if x.kind in ("str",) or (x.kind == "v") else None for x in args[:nargs]]
+        if any(x is None for x in a):
+            raise OutsideSubset(f"str.{name} argument form")
+        f = z3.Function("py_" + name, *([S.Str] * (1 + len(a)) + [ret or S.Str]))
+        r = f(recv.t, *a)
+        yield st, (sv_str(r) if ret is None else (sv_bool(r) if ret == S.Bool else sv_int(r)))
+
+    return m
+
+
+def m_str_removeprefix(engine, st, recv, args, kwargs, recv_node):
+    p = engine.as_str(args[0])
+    yield st, sv_str(z3.If(z3.PrefixOf(p, recv.t), z3.SubString(recv.t, z3.Length(p), z3.Length(recv.t) - z3.Length(p)), recv.t))
+
+
+def m_str_removesuffix(engine, st, recv, args, kwargs, recv_node):
+    p = engine.as_str(args[0])
+    yield st, sv_str(z3.If(And(z3.SuffixOf(p, recv.t), z3.Length(p) > 0), z3.SubString(recv.t, 0, z3.Length(recv.t) - z3.Length(p)), recv.t))
+
+
+def m_str_find(engine, st, recv, args, kwargs, recv_node):
+    yield st, sv_int(z3.IndexOf(recv.t, engine.as_str(args[0]), 0))
+
+
+def m_str_rfind(engine, st, recv, args, kwargs, recv_node):
+    yield st, sv_int(z3.LastIndexOf(recv.t, engine.as_str(args[0])))
+
+
+def m_str_lstrip(engine, st, recv, args, kwargs, recv_node):
+    f = z3.Function("py_lstrip", S.Str, S.Str, S.Str)
+    yield st, sv_str(f(recv.t, engine.as_str(args[0]) if args and args[0].kind != "none" else z3.StringVal(" \t\n\r\x0b\x0c")))
+
+
+def m_str_rstrip(engine, st, recv, args, kwargs, recv_node):
+    f = z3.Function("py_rstrip", S.Str, S.Str, S.Str)
+    yield st, sv_str(f(recv.t, engine.as_str(args[0]) if args and args[0].kind != "none" else z3.StringVal(" \t\n\r\x0b\x0c")))
+
+
+def m_str_format(engine, st, recv, args, kwargs, recv_node):
+    f = Facts()
+    bs = [box(a, f) for a in args] + [box(v, f) for k, v in sorted(kwargs.items()) if k != "**"]
+    acc = V.none
+    for b in reversed(bs):
+        acc = V.pair(b, acc)
+    yield st.with_facts(f), sv_str(z3.Function("str_format", S.Str, V, S.Str)(recv.t, acc))
+
+
 def m_set_add(engine, st, recv, args, kwargs, recv_node):
     st, b = engine.boxed(st, args[0])
     yield from _mut(engine, st, recv, recv_node, SV("set", z3.Store(recv.t, b, z3.BoolVal(True)), recv.ty))
@@ -1468,6 +1652,39 @@ METHODS = {
     ("dict", "items"): m_dict_items,
     ("dict", "clear"): m_dict_clear,
     ("dict", "update"): m_dict_update,
+    ("dict", "setdefault"): m_dict_setdefault,
+    ("dict", "copy"): m_dict_copy,
+    ("set", "copy"): m_set_copy,
+    ("set", "issubset"): _set_pred(lambda a, b: z3.Implies(a, b)),
+    ("set", "issuperset"): _set_pred(lambda a, b: z3.Implies(b, a)),
+    ("set", "isdisjoint"): _set_pred(lambda a, b: Not(And(a, b))),
+    ("set", "symmetric_difference"): _set_binop(lambda a, b: z3.Xor(a, b)),
+    ("list", "insert"): m_list_insert,
+    ("list", "remove"): m_list_remove,
+    ("list", "index"): m_list_index,
+    ("list", "sort"): m_list_sort,
+    ("list", "reverse"): m_list_reverse,
+    ("list", "clear"): m_list_clear,
+    ("str", "removeprefix"): m_str_removeprefix,
+    ("str", "removesuffix"): m_str_removesuffix,
+    ("str", "find"): m_str_find,
+    ("str", "rfind"): m_str_rfind,
+    ("str", "lstrip"): m_str_lstrip,
+    ("str", "rstrip"): m_str_rstrip,
+    ("str", "format"): m_str_format,
+    ("str", "title"): _str_uf("title"),
+    ("str", "capitalize"): _str_uf("capitalize"),
+    ("str", "casefold"): _str_uf("casefold"),
+    ("str", "swapcase"): _str_uf("swapcase"),
+    ("str", "isdigit"): _str_uf("isdigit", 0, S.Bool),
+    ("str", "isalpha"): _str_uf("isalpha", 0, S.Bool),
+    ("str", "isalnum"): _str_uf("isalnum", 0, S.Bool),
+    ("str", "isupper"): _str_uf("isupper", 0, S.Bool),
+    ("str", "islower"): _str_uf("islower", 0, S.Bool),
+    ("str", "isspace"): _str_uf("isspace", 0, S.Bool),
+    ("str", "isidentifier"): _str_uf("isidentifier", 0, S.Bool),
+    ("str", "count"): _str_uf("count", 1, S.Int),
+    ("str", "zfill"): _str_uf("zfill0"),
     ("set", "add"): m_set_add,
     ("set", "remove"): m_set_remove,
     ("set", "discard"): m_set_discard,
